@@ -207,3 +207,41 @@ func VerifC08_FractionStep() {
 		vr.Assert(c08QuotaOK(chain), "C08.nonpreemptible-within-quota-after-decision#fraction")
 	}
 }
+
+// VerifC08_UndoneStepLeavesUsage: a what-if placement that is undone (real allocate handler, then
+// real deallocate handler, as Statement rollback does) leaves the usage the capacity checks read -
+// allocated and non-preemptible allocated at every level - exactly as it was, for preemptible and
+// non-preemptible workloads; otherwise later decisions of the cycle are checked against wrong usage.
+// BOUND: chain depth 1..3; one task; one resource dimension at a time; quantities integers < 2^30
+func VerifC08_UndoneStepLeavesUsage() {
+	depth := vr.Choose("depth", 3) + 1
+	active := rs.AllResources[vr.Choose("resource", 3)]
+	queues, chain := c08Chain(depth, active)
+	vm := resource_info.NewResourceVectorMap()
+	var cpu, mem, gpus float64
+	switch active {
+	case rs.CpuResource:
+		cpu = vr.AnyFloatNat("t.cpu", c08Bits)
+	case rs.MemoryResource:
+		mem = vr.AnyFloatNat("t.mem", c08Bits)
+	default:
+		gpus = vr.AnyFloatNat("t.gpus", 8)
+	}
+	t := vs.NewTask("t", "job", "", cpu, mem, vs.GpuSpec{Kind: 0, Whole: gpus}, pod_status.Pending, "", vm)
+	job := vs.NewJob("job", "q0", vr.AnyBool("preemptible"), 0, 1, vm, t)
+	pp := &proportionPlugin{queues: queues}
+	ssn := c08Session(job)
+	node := vs.NewNode("n1", 1<<40, 1<<40, 1<<20, 100, 16000, vm)
+	var before [][2]float64
+	for _, q := range chain {
+		s := q.ResourceShare(active)
+		before = append(before, [2]float64{s.Allocated, s.AllocatedNotPreemptible})
+	}
+	c08Place(node, job, t, pp.allocateHandlerFn(ssn))
+	pp.deallocateHandlerFn(ssn)(&framework.Event{Task: t})
+	for i, q := range chain {
+		s := q.ResourceShare(active)
+		vr.Assert(s.Allocated == before[i][0], "C08.undone-step-restores-allocated")
+		vr.Assert(s.AllocatedNotPreemptible == before[i][1], "C08.undone-step-restores-non-preemptible-allocated")
+	}
+}
